@@ -18,17 +18,21 @@ static void fast_forward(Queue& q, size_t laps) {   // keep identical to mc_queu
   for (size_t i = 0; i < cap; i++) q._slots.futex(i)._futex.value().store((uint32_t)(uint16_t)(laps << 1), std::memory_order_relaxed);
 }
 
-enum { Q_TRY_PUSH, Q_TRY_POP, Q_PUSH, Q_POP, Q_TRY_PUSH_N2, Q_TRY_POP_N2, Q_PUSH_N2, Q_POP_N2, Q_CPUSH_N2, Q_CPOP_N2, Q_NC_TRY_PUSH_N3, Q_NC_TRY_POP_N3, Q_ADV_32766, Q_ADV_32767, Q_NUM };
+enum { Q_TRY_PUSH, Q_TRY_POP, Q_PUSH, Q_POP, Q_TRY_PUSH_N2, Q_TRY_POP_N2, Q_PUSH_N2, Q_POP_N2, Q_CPUSH_N2, Q_CPOP_N2, Q_NC_TRY_PUSH_N3, Q_NC_TRY_POP_N3, Q_ADV_32766, Q_ADV_32767, Q_CLEAR, Q_SWAP, Q_RESERVE_SAME, Q_RESERVE_TOGGLE, Q_NUM };
 static const char* qnames[] = {"try_push", "try_pop", "push", "pop", "try_push_n(2)", "try_pop_n(2)", "push_n(2)", "pop_n(2)", "compensating push_n(2)", "compensating pop_n(2)",
-                               "try_push_n<non-concurrent>(3)", "try_pop_n<non-concurrent>(3)", "pass laps through the queue until lap 32766", "pass laps through the queue until lap 32767"};
-template <int CAP>
+                               "try_push_n<non-concurrent>(3)", "try_pop_n<non-concurrent>(3)", "pass laps through the queue until lap 32766", "pass laps through the queue until lap 32767",
+                               "clear", "swap with the second queue", "reserve_and_clear(same capacity)", "reserve_and_clear(other capacity)"};
+template <int CAP0, bool EXT = false>
 struct QueueSys {
+  static constexpr int CAP = CAP0;
   Queue q{CAP}; std::deque<uint64_t> model; uint64_t next = 1; size_t lap_base = 0; bool advanced = false;
-  static std::string name() { return "ConcurrentBoundedQueue capacity " + std::to_string(CAP); }
-  static int num_ops() { return Q_NUM; }
+  Queue q2{CAP}; std::deque<uint64_t> model2; int swaps = 0, resizes = 0;   // the second queue only takes part in swap(): whatever it holds comes back with the next swap
+  size_t cap() const { return q.capacity(); }
+  static std::string name() { return "ConcurrentBoundedQueue capacity " + std::to_string(CAP) + (EXT ? " with clear/swap/reserve_and_clear" : ""); }
+  static int num_ops() { return EXT ? Q_NUM : Q_CLEAR; }
   static std::string op_name(int op) { return qnames[op]; }
   bool enabled(int op) {
-    size_t n = model.size();
+    size_t n = model.size(); const size_t CAP = cap();
     switch (op) {
       case Q_PUSH: return n < (size_t)CAP;
       case Q_POP: return n >= 1;
@@ -36,11 +40,13 @@ struct QueueSys {
       case Q_POP_N2: return n >= 2;
       case Q_CPUSH_N2: case Q_CPOP_N2: return CAP >= 2;
       case Q_ADV_32766: case Q_ADV_32767: return !advanced && n == 0 && q._next_push_index.load() % CAP == 0;
+      case Q_SWAP: return swaps < 2;            // bounds keep the reachable state space finite
+      case Q_RESERVE_TOGGLE: return resizes < 2;
       default: return true;
     }
   }
   std::string apply(int op) {
-    typedef Queue::Iterator It;
+    typedef Queue::Iterator It; const size_t CAP = cap();
     std::vector<uint64_t> got; size_t want_push = 0, want_pop = 0, done = 0; bool ok = true;
     auto pushcb = [&](It b, It e) { for (; b != e; ++b) { *b = next; model.push_back(next); next++; done++; } };
     auto popcb = [&](It b, It e) { for (; b != e; ++b) { got.push_back(*b); done++; } };
@@ -72,12 +78,22 @@ struct QueueSys {
       }
       case Q_ADV_32766: case Q_ADV_32767: {
         size_t target = op == Q_ADV_32766 ? 32766 : 32767; size_t lap = q._next_push_index.load() / CAP;
-        for (; lap < target; lap++) for (int i = 0; i < CAP; i++) { uint64_t v = 7, r = 0; q.push<true, true, true>(v); q.pop<true, true, true>(r); if (r != 7) return "an element changed on its way through the queue"; }
+        for (; lap < target; lap++) for (size_t i = 0; i < CAP; i++) { uint64_t v = 7, r = 0; q.push<true, true, true>(v); q.pop<true, true, true>(r); if (r != 7) return "an element changed on its way through the queue"; }
         advanced = true;
         // differential: the state reached by really running equals the state written by fast_forward()
         Queue fresh{CAP}; fast_forward(fresh, target);
         if (fresh._next_push_index.load() != q._next_push_index.load() || fresh._next_pop_index.load() != q._next_pop_index.load()) return "fast_forward() does not reproduce the tickets of a queue that really ran " + std::to_string(target) + " laps";
-        for (int i = 0; i < CAP; i++) if (fresh._slots.futex(i)._futex.value().load() != q._slots.futex(i)._futex.value().load()) return "fast_forward() does not reproduce the slot words of a queue that really ran " + std::to_string(target) + " laps";
+        for (size_t i = 0; i < CAP; i++) if (fresh._slots.futex(i)._futex.value().load() != q._slots.futex(i)._futex.value().load()) return "fast_forward() does not reproduce the slot words of a queue that really ran " + std::to_string(target) + " laps";
+        break;
+      }
+      case Q_CLEAR: q.clear(); model.clear(); if (q.size() != 0) return "clear() left elements behind"; break;
+      case Q_SWAP: q.swap(q2); model.swap(model2); swaps++; break;
+      case Q_RESERVE_SAME: { size_t c = q.reserve_and_clear(CAP); model.clear(); if (c != CAP || q.capacity() != CAP) return "reserve_and_clear(capacity()) changed the capacity"; break; }
+      case Q_RESERVE_TOGGLE: {
+        // to twice the template capacity and back: the slot vector is rebuilt, tickets and slot versions start again
+        size_t want = CAP == (size_t)CAP0 ? 2 * CAP0 : CAP0; size_t c = q.reserve_and_clear(want == 2u * CAP0 ? want - (want > 2 ? 1 : 0) : want); model.clear(); resizes++;   // min_capacity is rounded up to a power of two
+        if (c != want || q.capacity() != want) return "reserve_and_clear(" + std::to_string(want) + ") gave capacity " + std::to_string(c);
+        if (q._next_push_index.load() != 0 || q._next_pop_index.load() != 0) return "reserve_and_clear with a new capacity did not restart the tickets";
         break;
       }
     }
@@ -86,10 +102,13 @@ struct QueueSys {
   }
   std::string check() {
     if (q.size() != model.size()) return "size() = " + std::to_string(q.size()) + " but the reference holds " + std::to_string(model.size());
+    if (q2.size() != model2.size()) return "second queue: size() = " + std::to_string(q2.size()) + " but the reference holds " + std::to_string(model2.size());
     return "";
   }
   std::string canon() {
-    std::string s = "n=" + std::to_string(model.size()) + " pushslot=" + std::to_string(q._next_push_index.load() % CAP) + " lap=" + std::to_string(q._next_push_index.load() / CAP) + " poplap=" + std::to_string(q._next_pop_index.load() / CAP);
+    const size_t CAP = cap();
+    std::string s = "n=" + std::to_string(model.size()) + " pushslot=" + std::to_string(q._next_push_index.load() % CAP) + " lap=" + std::to_string(q._next_push_index.load() / CAP) + " poplap=" + std::to_string(q._next_pop_index.load() / CAP) + " cap=" + std::to_string(CAP) +
+                    " | q2 n=" + std::to_string(model2.size()) + " push=" + std::to_string(q2._next_push_index.load()) + " pop=" + std::to_string(q2._next_pop_index.load()) + " cap=" + std::to_string(q2.capacity()) + " swaps=" + std::to_string(swaps) + " resizes=" + std::to_string(resizes) + " adv=" + std::to_string(advanced);
     return s;
   }
 };
@@ -98,5 +117,11 @@ static void register_systems() {
   seqx::add<QueueSys<1>>();
   seqx::add<QueueSys<2>>();
   seqx::add<QueueSys<4>>();
+  // the same alphabet plus clear(), swap() with a second queue and reserve_and_clear() to the same / another capacity: one step
+  // shallower, the second queue and the capacity multiply the state space
+  auto shallower = [](int d) { return d > 2 ? d - 1 : d; };
+  seqx::add<QueueSys<1, true>>(shallower);
+  seqx::add<QueueSys<2, true>>(shallower);
+  seqx::add<QueueSys<4, true>>(shallower);
 }
 SEQX_MAIN("sq_queue")
